@@ -373,8 +373,13 @@ def ninja_like(ctx):
     if '--version' in ctx.argv:
         sys.stdout.write('1.11.1\n')
         return 0
-    sys.stderr.write('ninja stub: only --version is answered; the reference '
-                     'executor runs manifests\n')
+    if ctx.argv[:2] == ['-t', 'clean']:
+        here = os.path.dirname(os.path.dirname(os.path.abspath(__file__)))
+        os.execv(sys.executable, [sys.executable, '-E',
+                                  os.path.join(here, 'refninja.py'),
+                                  '-t', 'clean'])
+    sys.stderr.write('ninja stub: only --version and -t clean are answered; '
+                     'the reference executor runs manifests\n')
     return 2
 
 
